@@ -245,7 +245,7 @@ def c14_jobs(tier):
             j.weight_gb = 0.3 + n * n * 4.5 / (255 * 255) * (stages / 3.0 + 0.2)
             J.append(j)
     # requests issued on behalf of plan tasks (plans enabled, payload machine and payload-free machine)
-    for n in ((2, 3, 5, 9) if tier == 'quick' else (1, 2, 3, 4, 5, 7, 8, 9, 16, 17, 33)):
+    for n in ((2, 3, 5) if tier == 'quick' else (1, 2, 3, 4, 5, 7, 8, 9, 16, 17)):
         for pay in (0, 1):
             j = Job('disp-plan-n%d-p%d' % (n, pay), 'dispatch.cpp', dict(NSTATES=n, STATE_LIST=sl(n), HEAD=n % 2, STAGES=3, PAYLOAD=pay, FFSM2_ENABLE_PLANS=''), unwind=max(8, n + 3),
                     timeout=900 if tier == 'quick' else 3000, mem_gb=16, prop=(1400, 1499), seeds=20)
